@@ -43,6 +43,41 @@ CHECKS = {
         technique="history enumeration + Hypothesis over request-outcome sequences, virtual clock, exact schedule oracle",
         engine="vloop",
     ),
+    "C02": dict(
+        category="exploration",
+        text="Conforming response frames are built by the independent reference codec for every command kind, every read "
+             "count 1..125 and every AA55 payload length 0..255 with all-00/all-FF/7F-80/FE/patterned contents, any comm "
+             "address, optional trailing bytes after RTU frames; the validator must return True, ProtocolResponse must deliver "
+             "exactly the payload (whole and per register) and a sample runs end-to-end through execute() on the virtual loop.",
+        design_ref="DESIGN.md section 4, C02; D2",
+        note="Trusted: vlib/refwire.py as definition of 'conforming'; AA55 checksum modulo 2^16.",
+        technique="enumeration of lengths x content classes + Hypothesis, builder-vs-validator differential, end-to-end sample",
+        engine="refwire",
+    ),
+    "C07": dict(
+        category="exploration",
+        text="Every split point of a read response is enumerated for several counts/lengths, both keep-alive settings and five "
+             "timings; the exact remainder within the timeout must give the unsplit frame with one transmission. Wrong second "
+             "pieces (+-bytes, flipped bit, garbage, other request's tail, complete frames) and leftovers across retransmissions "
+             "are enumerated on a grid and sampled by Hypothesis; a successful result must be one delivered datagram or two "
+             "pieces received during the same transmission, and on checksummed framings never head+foreign bytes.",
+        design_ref="DESIGN.md section 4, C07",
+        note="Trusted: vlib/vloop.py delivery labelling; success demanded only when both pieces arrive before transmission+timeout; "
+             "2^-16 CRC coincidences are classified, not reported.",
+        technique="exhaustive split-point enumeration + Hypothesis delivery lists, provenance oracle on a virtual-clock loop",
+        engine="vloop",
+    ),
+    "C08": dict(
+        category="exploration",
+        text="All 256 exception codes x read/write/write-multi x RTU-over-UDP and Modbus/TCP x keep-alive x first/last "
+             "transmission are enumerated: the request must fail with RequestRejectedException exactly when the exception frame "
+             "is delivered, with no further transmission, and the message must be the Modbus reason (codes 1-3 verbatim, unknown "
+             "codes 'UNKNOWN'); frames with a wrong CRC must not be rejections; the reason table must be injective.",
+        design_ref="DESIGN.md section 4, C08",
+        note="Trusted: vlib/vloop.py, Modbus application protocol names (SLAVE/SERVER wording normalised for codes 4-11).",
+        technique="exhaustive code enumeration + Hypothesis timing/configuration sampling on a virtual-clock loop",
+        engine="vloop",
+    ),
 }
 
 def main():
